@@ -263,6 +263,23 @@ def onCreate (C : Crypto Tag Sess Blob) (n : Node Sess) (cid ident : Nat) (nodeP
                 exits := upd n.exits cid (some ⟨nodePk, keys⟩) },
        [⟨nodePk, .created cid ident (some pk) auth (C.enc keys offered)⟩])
 
+/-- join_circuit on its own — what runs when an on_create that was SUSPENDED in an overridden, really awaiting
+    `should_join_circuit` resumes (the in-use guards of on_create were evaluated before the suspension).  The only
+    re-check is the CreatedRequestCache constructor, which raises RuntimeError for an id that is being joined already;
+    it runs after the DH and BEFORE the exit socket is installed, so nothing is written in that case. -/
+def joinCircuit (C : Crypto Tag Sess Blob) (n : Node Sess) (cid ident : Nat) (nodePk : Key) (key : Option Wire)
+    (y : Key) (offered : List Key) : Node Sess × List (Out Tag Blob) :=
+  match key with
+  | none => (n, [])
+  | some w =>
+    if (n.created cid).isSome then (n, [])
+    else
+      let (secret, pk, auth) := genSharedSecret C y n.me w
+      let keys := C.kdf secret
+      ({ n with created := upd n.created cid (some offered),
+                exits := upd n.exits cid (some ⟨nodePk, keys⟩) },
+       [⟨nodePk, .created cid ident (some pk) auth (C.enc keys offered)⟩])
+
 /-- the previous hop a relay answers to: circuits, then exit_sockets, then relay_from_to -/
 def prevPeer (n : Node Sess) (cid : Nat) : Option Key :=
   match n.circuits cid with
@@ -298,6 +315,7 @@ inductive Ev (Tag Blob : Type) where
   | sendInitialCreate (cid : Nat) (cands : List Key) (tries : Int) (env : Env)
   | removeCircuit (cid : Nat)
   | create (cid ident : Nat) (nodePk : Key) (key : Option Wire) (y : Key) (offered : List Key)
+  | join (cid ident : Nat) (nodePk : Key) (key : Option Wire) (y : Key) (offered : List Key)   -- resumed join_circuit
   | extend (cid ident : Nat) (nodePk : Key) (key : Option Wire) (addrGiven : Bool) (toCid number : Nat)
   | createdExpire (cid : Nat)
   | createExpire (number : Nat)
@@ -317,6 +335,7 @@ def step [DecidableEq Tag] (C : Crypto Tag Sess Blob) (n : Node Sess) : Ev Tag B
     | some c => n.setCirc cid (sendInitialCreate n.me cid c cands tries env)
   | .removeCircuit cid => ({ n with circuits := upd n.circuits cid none }, [])
   | .create cid ident nodePk key y offered => onCreate C n cid ident nodePk key y offered
+  | .join cid ident nodePk key y offered => joinCircuit C n cid ident nodePk key y offered
   | .extend cid ident nodePk key ag toCid number => onExtend n cid ident nodePk key ag toCid number
   | .createdExpire cid => ({ n with created := upd n.created cid none }, [])
   | .createExpire number => ({ n with creates := upd n.creates number none }, [])
